@@ -602,6 +602,52 @@ def r184(facts, res):
     r184_for(facts, res, R, lb, 'lexer-builder')
 
 
+def r1811(facts, res):
+    """A build that fails BEFORE it has claimed its output path leaves whatever an earlier build generated in place.  That is right
+    for exactly one refusal - "another builder of this process already generates to this path" must not delete that builder's
+    file - and for assertions of the impossible.  Every other failing exit (a builder setting that is rejected, a conversion
+    that fails) has to come after the claim, where the output guard removes the stale file."""
+    R = 'R18.11'
+    for crate, impl, label in (('lrpar', PB, 'parser-builder'), ('lrlex', LB, 'lexer-builder')):
+        b = facts.one(R, impl, crate=crate, name='build', impl_re='^' + impl)
+        claims = [(bb, t) for bb, t in b.calls_named('insert') if 'PathBuf' in (callee_of(t).get('self_ty') or '')]
+        if len(claims) != 1:
+            res.lost(R, '%s: expected one insertion into the generated-paths set, found %d' % (label, len(claims)))
+            continue
+        cb = claims[0][0]
+        errs, oks, divs = exits(b)
+        pre = b.reachable([0], avoid={cb})
+        F0 = [x for x in errs + divs if x in pre]
+        # the same-path refusal: control dependent on the membership test of the generated-paths set
+        contains = [bb for bb, t in b.calls_named('contains') if 'PathBuf' in ((callee_of(t).get('self_ty') or '') + str(callee_of(t).get('args') or ''))]
+        bad = []
+        for x in F0:
+            t = b.term(x)
+            if t['k'] == 'call' and t['ret'] is None:
+                # assertions of the impossible (unreachable!()) and a poisoned lock are not builds that fail on their input
+                msg = ' '.join(str((op_const(a) or {}).get('str') or '') for a in t['args'])
+                from c03 import const_str_of
+                msg += ' '.join(str(const_str_of(b, a) or '') for a in t['args'])
+                if 'unreachable' in msg or cname(t) in ('unreachable', 'unwrap_failed', 'expect_failed'):
+                    continue
+            deps = b.control_deps_pd(x) + b.control_deps(x)
+            same_path = False
+            for sb in deps:
+                ol = op_local(b.term(sb)['on'])
+                r_ = b.root(ol, through=('not',), stop_named=False)[0] if ol is not None else None
+                if any(d[1] == 'call' and d[0] in contains for d in b.defs().get(r_, []) if r_ is not None):
+                    same_path = True
+            if same_path:
+                continue
+            bad.append(x)
+        key = label + '/before-claim'
+        if bad:
+            res.bad(R, key, loc_of(b, bad[0]), '%d failing exit(s) before the output path is claimed and guarded (e.g. %s at line %s): a build that fails there leaves the file generated by an '
+                    'earlier build in place, which no clean build would produce' % (len(bad), producer(b, bad[0]), b.term(bad[0]).get('line')), {'function': b.path})
+        else:
+            res.ok(R, key, loc_of(b, cb), 'the only way to fail before the output path is claimed is the refusal to generate two files to one path (%d exits examined)' % len(F0))
+
+
 def r189(facts, res):
     """The token-map builder writes a generated file too: every failing exit of CTTokenMapBuilder::build except the lookup of the
     output directory itself lies under a drop guard that removes the output (armed before the exit, disarmed only right before an Ok
@@ -783,4 +829,5 @@ def run(facts, res):
     r184(facts, res)
     r189(facts, res)
     r1810(facts, res)
+    r1811(facts, res)
     r185(facts, res)
